@@ -190,6 +190,56 @@ def loaded_pass(ctx):
         shutil.rmtree(tmp, ignore_errors=True)
 
 
+def metamodel_pass(ctx):
+    """name-based fragments of metamodel elements: generated metamodels in resources with one to three root packages,
+    edited (subpackage / class renamed, class moved to another package); after every edit, for every element under a
+    root: `resource.resolve(e.eURIFragment()) is e`, fragments pairwise distinct"""
+    from pyecore.resources import ResourceSet, URI
+    from . import c10
+    n = 40 if ctx.quick() else 800
+    for h in range(n):
+        rng = common.sub_rng(ctx.seed, 'C11', 'meta', h)
+        nroots = rng.choice([1, 1, 2, 3])
+        roots = []
+        for k in range(nroots):
+            pk = c10.gen_metamodel(rng, h * 10 + k)
+            pk.name = f'{pk.name}_{k}'
+            roots.append(pk)
+        res = ResourceSet().create_resource(URI(f'/nonexistent/verif_c11_meta_{h}.ecore'))
+        for pk in roots:
+            res.append(pk)
+        log = []
+        for step in range(4):
+            seen, problem = {}, None
+            for r in res.contents:
+                for e in [r] + list(r.eAllContents()):
+                    ctx.evaluations += 1
+                    try:
+                        fr = e.eURIFragment()
+                        got = res.resolve(fr)
+                    except Exception as ex:
+                        problem = ('meta-resolve', f'{type(e).__name__} {getattr(e, "name", "")!r}: resolving its fragment raised {type(ex).__name__}')
+                        break
+                    if got is not e:
+                        problem = ('meta-resolve', f'{type(e).__name__} {getattr(e, "name", "")!r}: fragment {fr!r} resolves to '
+                                   f'{type(got).__name__} {getattr(got, "name", None)!r}')
+                        break
+                    if fr in seen and seen[fr] is not e:
+                        problem = ('meta-distinct', f'{type(e).__name__} {getattr(e, "name", "")!r} and {type(seen[fr]).__name__} '
+                                   f'{getattr(seen[fr], "name", "")!r} share the fragment {fr!r}')
+                        break
+                    seen[fr] = e
+                if problem:
+                    break
+            ctx.nontriv(('meta', h, step))
+            ctx.count(f'meta/roots-{nroots}')
+            if problem:
+                ctx.violate({'clause': problem[0], 'roots': nroots}, f'{problem[0]} ({nroots} root package(s), after {log}): {problem[1]}',
+                            {'case': h, 'pass': 'metamodel', 'roots': nroots, 'edits': log})
+                break
+            log += c10.restructure_pkg(rng, rng.choice(roots))
+
+
 def run(ctx):
     common.use_repo()
     n = 250 if ctx.quick() else 4000
@@ -214,9 +264,12 @@ def run(ctx):
             ctx.diverge(f'history {h} `{line}` ({kind}): model `{got[:200]}` vs implementation `{want[:200]}`',
                         {'ops': lines, 'line': line})
     loaded_pass(ctx)
+    metamodel_pass(ctx)
     ctx.rule += ('; plus models saved (XMI / JSON), loaded in a fresh resource set and then edited with position-shifting '
-                 'operations (pop, move to front, insert, root moved): the same two clauses after every edit')
-    ctx.assumptions += ['positional fragments of dynamic instances (name-based fragments of metamodel elements are C10); uuid mode is C08',
+                 'operations (pop, move to front, insert, root moved): the same two clauses after every edit; plus generated metamodels in '
+                 'resources with 1-3 root packages, edited (renames, a class moved to another package): the same two clauses for the '
+                 'name-based fragments of every element')
+    ctx.assumptions += ['uuid mode is C08',
                         'container chains are acyclic']
 
 
